@@ -88,7 +88,7 @@ def main():
     )
 
     if args.is_submodule:
-        wrapper.wrap_submodule(args.src)
+        wrapper.wrap_submodule(args.src, args.out)
 
     else:
         # Wrap the code and get back the cpp/cc code.
